@@ -681,3 +681,4 @@ MANIFEST = {
 MANIFEST["text"] += ' Also: Ellipsis is expanded before the index is padded to ndim and stands for ndim − (len − 1) slices; validate_ndinfo returns a flattened or rank-checked array.'
 MANIFEST["text"] += ' The stale-read rule is field-sensitive (a store into self.array invalidates shape/ndim/dtype reads, a store into sampling only sampling reads …) and is a def-use fact over the CFG, reported as definite whatever the layout of the method.'
 MANIFEST["text"] += ' validate_ndinfo: the length compared with ndim is that of the returned, flattened array (not of the raw argument).'
+MANIFEST["text"] += ' R5 also: the calibration setters and the array setter do not convert the new value to the dtype of the state it replaces (closure of the dtype argument through locals; definite).'
